@@ -235,6 +235,22 @@ V("c16d-store-through-negated-complement-mask", "C16", {"rule": "C16d", "contain
 V("c16d-store-through-complement-mask-only", "C16", "silent",
   (FSTEPS, "    all_occupation_numbers = np.zeros(d, dtype=np.int32)\n\n    index_list = []", "    is_auxiliary = np.zeros(d, dtype=np.bool_)\n    is_auxiliary[auxiliary_modes] = True\n\n    all_occupation_numbers = np.zeros(d, dtype=np.int32)\n\n    index_list = []"),
   (FSTEPS, "            for idx, mode in enumerate(auxiliary_modes):\n                all_occupation_numbers[mode] = auxiliary_occupation_numbers[idx]\n", "            all_occupation_numbers[is_auxiliary] = auxiliary_occupation_numbers\n"))
+FGSTEPS = "piquasso/fermionic/gaussian/simulation_steps.py"
+FFS = "piquasso/fermionic/fock/simulation_steps.py"
+V("c16b-sorted-prefix-of-the-mode-tuple", "C16", {"rule": "C16b", "contains": "_generate_particle_number_samples"},
+  (FGSTEPS, "            subspace_modes = tuple(modes[:mode_index])", "            subspace_modes = tuple(sorted(modes[:mode_index]))"))
+V("c16d-selection-through-membership-mask", "C16", {"rule": "C16d", "contains": "_get_measurement_probability_map"},
+  (FFS, "    measured_modes = list(modes)\n\n    for index, occupation_number in enumerate(fock_space_basis):\n        sample = tuple(occupation_number[measured_modes])",
+   "    is_measured = fallback_np.isin(fallback_np.arange(state.d), modes)\n    measured = fock_space_basis[:, is_measured]\n\n    for index, occupation_number in enumerate(fock_space_basis):\n        sample = tuple(measured[index])"))
+V("c16d-selection-by-the-mode-list", "C16", "silent",
+  (FFS, "    measured_modes = list(modes)\n\n    for index, occupation_number in enumerate(fock_space_basis):\n        sample = tuple(occupation_number[measured_modes])",
+   "    measured = fock_space_basis[:, list(modes)]\n\n    for index, occupation_number in enumerate(fock_space_basis):\n        sample = tuple(measured[index])"))
+V("c11a-global-seeding-made-conditional", "C11", {"rule": "C11a", "contains": "random.seed on every path"},
+  (CONFIGPY, "        self.rng = np.random.default_rng(self._seed_sequence)\n        random.seed(self._seed_sequence)",
+   "        self.rng = np.random.default_rng(self._seed_sequence)\n        if self._original_seed_sequence is not None:\n            random.seed(self._seed_sequence)"))
+V("c11a-global-seeding-first", "C11", "silent",
+  (CONFIGPY, "        self.rng = np.random.default_rng(self._seed_sequence)\n        random.seed(self._seed_sequence)",
+   "        random.seed(self._seed_sequence)\n        self.rng = np.random.default_rng(self._seed_sequence)"))
 # ------------------------------------------------------------------------------------------- C20
 V("c20-sub-add", "C20", {"rule": "C20c", "contains": "Sub"}, (EXPR, "ast.Sub: op.sub", "ast.Sub: op.add"))
 V("c20-lt-le", "C20", {"rule": "C20c", "contains": "Lt"}, (EXPR, "ast.Lt: op.lt", "ast.Lt: op.le"))
